@@ -22,7 +22,12 @@ def make_plan(seed: int, tier: str, opts: dict) -> dict:
     r.shuffle(pairs)
     for ep in eps:
         ep["until_active"] = True
-    return dict(spec=spec, seed=seed, episodes=eps, clock="sim", line_rate=0.0, compile=[dict(mode=m, prune=p, api=r.choice(APIS)) for m, p in pairs[:opts.get("pairs", 1)]])
+    wall = r.random() < opts.get("wall_p", 0.15)  # recordings made under WALL_CLOCK (virtual clock) must replay just the same
+    if wall:
+        for ep in eps:
+            ep["nsteps"] = min(ep["nsteps"], 6)
+            ep["rtf"] = 1
+    return dict(spec=spec, seed=seed, episodes=eps, clock="wall" if wall else "sim", line_rate=0.0, compile=[dict(mode=m, prune=p, api=r.choice(APIS)) for m, p in pairs[:opts.get("pairs", 1)]])
 
 
 def index_events(evs):
@@ -144,7 +149,7 @@ def run_plan(plan: dict, replay=None) -> dict:
         if viol:
             break
     jax.clear_caches()
-    res.update(common.summarise(ro, plan, extra_sums=dict(steps_compared=compared, steps_identical=matched, graph_build_s=graph_s, compiled_run_s=run_s, **stats)))
+    res.update(common.summarise(ro, plan, extra_sums=dict(wall_clock_runs=1 if plan.get("clock") == "wall" else 0, steps_compared=compared, steps_identical=matched, graph_build_s=graph_s, compiled_run_s=run_s, **stats)))
     res["dicts"]["compile_modes"] = {}
     for cc in plan["compile"]:
         k = f"{cc['mode']}/{'prune' if cc['prune'] else 'noprune'}/{cc['api']}"
